@@ -715,6 +715,13 @@ def run_shard(ctx, shard, nshards, tier, t_end, replay_cases=None):
                         seed['proto'].upper(), case_key(seed, case[2]), mutate(seed['data'], case[2]).hex()[:200],
                         '' if attempt == 'single' else ' (only reproducible with the %d preceding datagrams of its batch)' % (len(seq) - 1),
                         ' | '.join(p2)[:1800]))
+                    cs = canon[case[0]][case[1]]
+                    dkey = hashlib.sha1(repr((case[0], cs['proto'], cs['src'], case[2][1] if case[2][0] == 'to' else '',
+                                              mutate(cs['data'], case[2]))).encode()).digest()[:10]
+                    res['evaluations'] += 1
+                    res['distinct_keys'].add(dkey)
+                    res['nontrivial_keys'].add(dkey)        # a datagram that kills Squid was certainly processed
+                    res['outcomes']['squid-failed'] = res['outcomes'].get('squid-failed', 0) + 1
                     res['violations'].append((key, what, {'tier': tier, 'cases': [[c[0], c[1], list(c[2]) if c[2][0] != 'b' else ['b', [list(x) for x in c[2][1]]], nn] for c, nn in seq],
                                                           'describe': [describe(c) for c, _ in seq][-3:]}))
                     fresh()
